@@ -32,10 +32,21 @@ CHECKS = [
      "note": E1_NOTE},
 ]
 
+CHECKS += [
+    {"id": "C15", "engine": "E3-statespace", "level": "model_checking", "design_ref": "DESIGN.md §3 C15",
+     "technique": "explicit exploration of all controller histories (metric sequences x parameter grid x every restart subset) on the real controller against a reference state machine",
+     "text": "Every metric sequence over a 3/4-value grid up to length 5/6 and every parameter combination of the early-stopping / rate-reduction grids is run through the real controller and compared epoch by epoch with a reference state machine that carries reference values instead of epoch indices; for every subset of restart points the controller, model and optimizer are rebuilt from the csv and state directory and must reproduce the uninterrupted decisions, rates and byte-identical history. States (csv text, directory listing, cache) and transitions (updates, restarts) are counted.",
+     "note": "Bounded to the stated grids and depths; metrics/rates restricted to values representable in the csv's 5 significant digits (the property's own restriction); single process; trusted base: the reference state machine in mc/oracles/training.py."},
+    {"id": "C16", "engine": "E4-crashfs", "level": "fault_enumeration", "design_ref": "DESIGN.md §3 C16",
+     "technique": "exhaustive crash-point enumeration: every file-system mutating call of every epoch update is a kill point (crash bound 1 quick, 2 thorough) on the real update path over a file-system shim",
+     "text": "For every metric history of length 3/4 over {1,2,3}, keep-last-and-best both, formats with/without {epoch}, best_is_train both: each mkdir / temp creation / temp content / rename / csv creation / csv append / delete issued by update_for_epoch is a crash point; after each crash a fresh controller must read a row-prefix of the history, load last and best with exactly those epochs' parameters and finish with a byte-identical history. Crash-free directory contents are checked after every update. Shim conformance is validated against runs without the shim.",
+     "note": "Crash model: death between two file-system calls, each call atomic; no torn writes or reordering of unsynced writes (the property's stated model). Known finding F14 (formats without {epoch}) is listed in findings/known_findings.json and printed as KNOWN-FINDING."},
+]
+
 _PENDING = "check under construction in this session; not yet claimed"
 NOT_APPLICABLE = [
     {"property_id": p, "reason": _PENDING}
-    for p in ["C04", "C05", "C06", "C07", "C08", "C09", "C10", "C11", "C12", "C13", "C14", "C15", "C16",
+    for p in ["C04", "C05", "C06", "C07", "C08", "C09", "C10", "C11", "C12", "C13", "C14",
               "C17", "C18", "C19", "C20"]
 ]
 
